@@ -13,7 +13,7 @@ use crate::vmarket::*;
 const U: u64 = 10_000;
 
 /// (increase, decrease, stable threshold, decrease threshold, min, max, factor, exponent units)
-const PARAMS: [(u64, u64, u64, u64, u64, u64, u64, u64); 10] = [
+const PARAMS: [(u64, u64, u64, u64, u64, u64, u64, u64); 13] = [
     (1, 0, 500, 0, 1, 10, 2, 1),
     (0, 0, 500, 0, 1, 10, 2, 1),
     (3, 2, 2_000, 1_000, 2, 7, 5, 1),
@@ -24,6 +24,10 @@ const PARAMS: [(u64, u64, u64, u64, u64, u64, u64, u64); 10] = [
     (1, 1, 0, 0, 0, 0, 7, 1),
     (0, 0, 0, 0, 0, 50, 20_000, 2),
     (7, 0, 300, 0, 2, 40, 3, 2),
+    // adaptive funding switched off (no increase factor) with the other adaptive parameters left set
+    (0, 3, 500, 100, 1, 10, 2, 1),
+    (0, 2, 0, 0, 0, 12, 40, 1),
+    (0, 5, 9_000, 8_000, 0, 30, 9_000, 1),
 ];
 
 fn one(sink: &mut e1::Sink, pi: usize, stored: i64, lo: u64, so: u64, dur: u64) {
@@ -66,7 +70,7 @@ pub fn run(cli: &Cli) -> Report {
         return ph::run(cli);
     }
     let mut rep = Report::new(cli, "model_checking");
-    rep.rule("E1 part: product of 10 funding parameter sets x stored factor in -(max+2)..=(max+2) x (long, short) open interest on a dense grid with both sides non-zero x durations {0,1,60,3600,10^6} on UpdateFundingState::next_funding_factor_per_second; non-trivial = a rate was computed");
+    rep.rule("E1 part: product of 13 funding parameter sets (three of them with a zero increase factor and a non-zero decrease factor) x stored factor in -(max+2)..=(max+2) x (long, short) open interest on a dense grid with both sides non-zero x durations {0,1,60,3600,10^6} on UpdateFundingState::next_funding_factor_per_second; non-trivial = a rate was computed");
     if let Some(rv) = &cli.replay {
         for _ in 0..2 {
             e1::run(&mut rep, "replay", &[0u8], |_, sink| {
